@@ -13,13 +13,27 @@ Proof. exact (conj (escape_no_special s) (unescape_escape s)). Qed.
 Print Assumptions C36_escape_safe.
 
 (* the rows of index.html are a permutation of the findings of the results file: every
-   finding exactly once, with its file, id, severity cell and escaped message -- whatever
-   the files are (empty name means no location, unreadable, undecodable). The line cell is the
-   line unless the file name is empty, ends in a star or is in the script's decode_errors list
-   (then the script leaves it blank: see docs/C36.md, known finding) *)
-Theorem C36_index_complete derr es : Permutation (index_rows derr es) (map (row_of derr) es).
-Proof. exact (index_complete derr es). Qed.
+   finding exactly once -- whatever the files are (empty name means no location, unreadable,
+   undecodable) *)
+Theorem C36_index_complete es : Permutation (index_rows es) (map row_of es).
+Proof. exact (index_complete es). Qed.
 Print Assumptions C36_index_complete.
+
+(* and each row gives an HTML reader back the file, id and message of its finding (all three
+   cells are free of raw specials), the severity, and the line -- the line cell is blank only
+   for a finding without location or with a file name ending in a star *)
+Theorem C36_row_carries_finding e :
+  read_row (row_of e) =
+  (e_file e, (if negb (str_eqb (e_file e) []) && negb (ends_star (e_file e)) then dec_of_Z (e_line e) else []),
+   e_id e, (if e_inconcl e then e_sev e ++ L ", inconcl." else e_sev e), e_msg e).
+Proof. exact (row_carries e). Qed.
+Print Assumptions C36_row_carries_finding.
+
+Theorem C36_row_cells_safe e :
+  match row_of e with (f, _, id, _, m) =>
+    Forall (fun c => ~ special c) f /\ Forall (fun c => ~ special c) id /\ Forall (fun c => ~ special c) m end.
+Proof. exact (row_cells_safe e). Qed.
+Print Assumptions C36_row_cells_safe.
 
 (* within a file the findings are ordered by line, equal lines keep the order of the results file *)
 Theorem C36_group_sorted l : Sorted line_le (sort_line l).
@@ -32,8 +46,8 @@ Proof. exact (sort_line_stable k l). Qed.
 Print Assumptions C36_group_stable.
 
 Example C36_index_example :
-  index_rows [] [mkE (L "b.c") 2 (L "i1") (L "style") (L "a<b") true; mkE [] 0 (L "i2") (L "error") (L "m") false;
-                 mkE (L "b.c") 1 (L "i3") (L "error") (L "x") false] =
-  [([], [], L "i2", L "error", L "m"); (L "b.c", L "1", L "i3", L "error", L "x");
-   (L "b.c", L "2", L "i1", L "style, inconcl.", L "a&lt;b")].
+  index_rows [mkE (L "b<.c") 2 (L "i&1") (L "style") (L "a<b") true; mkE [] 0 (L "i2") (L "error") (L "m") false;
+                 mkE (L "b<.c") 1 (L "i3") (L "error") (L "x") false] =
+  [([], [], L "i2", L "error", L "m"); (L "b&lt;.c", L "1", L "i3", L "error", L "x");
+   (L "b&lt;.c", L "2", L "i&amp;1", L "style, inconcl.", L "a&lt;b")].
 Proof. vm_compute. reflexivity. Qed.
